@@ -632,6 +632,23 @@ Definition command_state (r : sret) (wid : nat) : exn + pstate :=
   | RRaise e => inl e
   end.
 
+(* _do_pause as the body of a deferred pause action (`pausing = self._pausing` is that action): after the transition to the next
+   state it gives up when the pause has been withdrawn meanwhile by a listener of that transition — play(), or a kill() that took
+   its place (either cancels the action and clears `_pausing`) *)
+Definition do_pause_deferred (msg : option string) (next : option pstate) : LM bool :=
+  w0 <- get ;;
+  match next, pausing w0 with
+  | Some _, Some a' =>
+      finally
+        (transition next ;;;
+         w1 <- get ;;
+         if (match pausing w1 with Some b => Nat.eqb a' b | None => false end)
+         then do_pause (do_ctl reent_fuel) msg None
+         else ret false)
+        (modify (fun w => w <| pausing := None |>))
+  | _, _ => do_pause (do_ctl reent_fuel) msg next
+  end.
+
 (* ------------------------------------------------------------------ CancellableAction.run *)
 (* run(next_state): InvalidStateError if done; the outcome of the action (value or exception) goes into
    the action future; nothing is raised to the caller *)
@@ -643,7 +660,7 @@ Definition run_action (id : nat) (next : option pstate) : LM unit :=
       match a_fut a with
       | AfPending =>
           r <- attempt (match a_kind a with
-                        | KPause msg => do_pause (do_ctl reent_fuel) msg next
+                        | KPause msg => do_pause_deferred msg next
                         | KKill msg =>
                             (* do_kill(_next_state): a failed step stays a failure; otherwise transition to KILLED;
                                finally: self._killing = None *)
